@@ -574,3 +574,8 @@ func FailExternal(t *testing.T, sub string, c any, v Verdict) {
 	writeLast(sub, canon(c))
 	t.Fatalf("%s violated: %s", sub, v.Msg)
 }
+
+// FuzzFail records the failing input of a native fuzz target as a replayable case of sub.
+func FuzzFail(sub string, c any) {
+	writeLast(sub, canon(c))
+}
